@@ -109,6 +109,16 @@ def peers_for(rng, entries):
                 out.append((fmt(val), pos))
         if fam == 4:
             out.append((f"::ffff:{v4(net)}", "v4-mapped"))
+            # an IPv6 address whose 128-bit value equals an IPv4 address of this entry (and the IPv4 address
+            # right before / after it): another family, so the entry says nothing about it
+            for pos, val in (("net", net), ("bcast", net + size - 1)):
+                if 0 < val <= 0xFFFFFFFF:
+                    out.append((v4(val), "twin4:" + pos))
+                    out.append((v6(val), "same-int-as-v4:" + pos))
+        elif net + size - 1 <= 0xFFFFFFFF:
+            for pos, val in (("net", net), ("bcast", net + size - 1)):
+                out.append((v6(val), "twin6:" + pos))
+                out.append((v4(val), "same-int-as-v6:" + pos))
         else:
             # what getpeername() reports for a link-local peer: the address with a %zone suffix; and the
             # same address spelled in full
@@ -338,7 +348,12 @@ def run(ctx):
             cfg = fixed[i - n] if i >= n else gen_config(rng)
             peers = peers_for(rng, (cfg["allow"] or []) + (cfg["deny"] or []))
             if ctx.quick():
-                peers = rng.sample(peers, min(len(peers), 28))
+                # a sample, but the rare classes (numeric twins across families, zoned and expanded spellings) always
+                # stay in, next to each other and in their original order
+                keep = [i for i, (_, pos) in enumerate(peers) if pos.startswith(("twin", "same-int", "scoped6", "expanded6"))]
+                rest = [i for i in range(len(peers)) if i not in set(keep)]
+                chosen = sorted(set(keep[:16]) | set(rng.sample(rest, min(len(rest), 24))))
+                peers = [peers[i] for i in chosen]
             run_object(ctx, cfg, peers)
             if i % 3 == 0 or i >= n:
                 run_wired(ctx, cfg, peers[:: 2 if ctx.quick() else 1], base)
